@@ -413,12 +413,25 @@ _SHUFFLE_SEED = [None]
 _REAL_SET = set
 
 
+def shuffle_key(seed, e):
+    return hashlib.sha1((str(seed) + "|" + repr(e)).encode("utf-8", "replace")).digest()
+
+
+def shuffle_order(seed, items):
+    """The order in which a ShuffledSet with this seed iterates `items` (distinct)."""
+    out = []
+    for x in items:
+        if x not in out:
+            out.append(x)
+    return sorted(out, key=lambda e: shuffle_key(seed, e))
+
+
 class ShuffledSet(set):
     """A set whose iteration order is a seeded pseudo-random permutation of its
     contents (independent of hashing and insertion order)."""
 
     def _key(self, e):
-        return hashlib.sha1((str(_SHUFFLE_SEED[0]) + "|" + repr(e)).encode("utf-8", "replace")).digest()
+        return shuffle_key(_SHUFFLE_SEED[0], e)
 
     def __iter__(self):
         items = list(_REAL_SET.__iter__(self))
@@ -692,3 +705,107 @@ def digest(files):
         h.update(files[k].encode("utf-8", "surrogatepass"))
         h.update(b"\0")
     return h.hexdigest()
+
+
+# ----------------------------------------------------------------------------
+# tracing wrappers (observe, never alter): what enters DesignateClassPackages,
+# what it assigns, what every render_module call resolves
+# ----------------------------------------------------------------------------
+TRACE = {}
+
+
+def _class_info(obj):
+    return {
+        "qname": obj.qname,
+        "name": obj.name,
+        "ns": obj.target_namespace,
+        "deps": sorted(set(obj.dependencies())),
+        "depsAll": sorted(set(obj.dependencies(True))),
+    }
+
+
+def install_tracing():
+    install_pipeline_patches()
+    from xsdata.codegen.handlers import designate_class_packages as D
+    from xsdata.formats.dataclass import generator as G
+
+    if getattr(D, "_c12_traced", False):
+        return
+    D._c12_traced = True
+    real_run = D.DesignateClassPackages.run
+    real_render_module = G.DataclassGenerator.render_module
+
+    def run(self):
+        classes = list(self.container)
+        TRACE["classes"] = [_class_info(c) for c in classes]
+        nss = []
+        for c in classes:
+            if c.target_namespace not in nss:
+                nss.append(c.target_namespace)
+        TRACE["nspkg"] = [[ns, ".".join(self.combine_ns_package(ns))] for ns in nss]
+        try:
+            real_run(self)
+        finally:
+            TRACE["assign"] = [
+                [c.qname, [c.package, c.module] if c.module is not None else None] for c in classes
+            ]
+
+    def render_module(self, resolver, classes):
+        raw = dict((q, pm) for q, pm in TRACE.get("assign", []))
+        try:
+            return real_render_module(self, resolver, classes)
+        finally:
+            first = TRACE.get("norm", {}).get(classes[0].qname) if classes else None
+            TRACE.setdefault("modules", []).append(
+                [
+                    first,
+                    [c.qname for c in resolver.sorted_classes()],
+                    [i.qname for i in resolver.sorted_imports()],
+                ]
+            )
+
+    real_normalize = G.DataclassGenerator.normalize_packages
+
+    def normalize_packages(self, classes):
+        # remember the raw (un-normalised) target module of every class
+        norm = {}
+        for c in classes:
+            try:
+                norm[c.qname] = c.target_module
+            except Exception:  # noqa: BLE001
+                norm[c.qname] = None
+        TRACE["norm"] = norm
+        return real_normalize(self, classes)
+
+    D.DesignateClassPackages.run = run
+    G.DataclassGenerator.render_module = render_module
+    G.DataclassGenerator.normalize_packages = normalize_packages
+
+
+def write_sources(schemas):
+    """{file name: text} -> directory (cached by content)"""
+    key = hashlib.sha1(json.dumps(schemas, sort_keys=True).encode()).hexdigest()[:16]
+    d = os.path.join(tempfile.gettempdir(), f"c12src-{os.getpid()}-{key}")
+    if not os.path.isdir(d):
+        os.makedirs(d)
+        for name, text in schemas.items():
+            with open(os.path.join(d, name), "w", encoding="utf-8") as f:
+                f.write(text)
+        import atexit
+        import shutil
+
+        atexit.register(lambda: shutil.rmtree(d, ignore_errors=True))
+    return d
+
+
+def generate_full(route, schemas, options, shuffle=None):
+    """generate() + the trace.  Returns {"files", "digest", "trace"} or {"err": name, "msg"}"""
+    install_tracing()
+    TRACE.clear()
+    srcdir = write_sources(schemas)
+    try:
+        files = generate(route, srcdir, options, shuffle)
+    except Exception as e:  # noqa: BLE001
+        msg = getattr(e, "message", None) or str(e)
+        return {"err": type(e).__name__, "msg": msg[:200], "trace": dict(TRACE)}
+    return {"files": files, "digest": digest(files), "trace": dict(TRACE)}
